@@ -347,9 +347,16 @@ class Queue(Greenlet):
             self._add_queued(entry)
 
     def _remove(self, id):
-        self._pool_spawn('store', self.store.remove, id)
-        self.queued_ids.discard(id)
-        self.active_ids.discard(id)
+        self._pool_spawn('store', self._remove_stored, id)
+
+    def _remove_stored(self, id):
+        # The message stays marked active until it is gone from storage, so
+        # that a stale timetable entry cannot dispatch it once more.
+        try:
+            self.store.remove(id)
+        finally:
+            self.queued_ids.discard(id)
+            self.active_ids.discard(id)
 
     def _bounce(self, envelope, reply):
         bounce = self.bounce_factory(envelope, reply)
